@@ -78,6 +78,7 @@ type Exec struct {
 	curEffFn  *ssa.Function
 	freshRefs map[int]bool
 	immutable map[string]bool
+	ptrTab    map[int]*PtrInfo // pointer value (term id) -> what it points to
 	boxEsc    bool // a captured local (box) may have become reachable by other code
 	epoch0    *Epoch
 	topExits  []exitRec // return points of the function under contract (postconditions are checked per return)
@@ -1007,7 +1008,7 @@ func (x *Exec) indexAddr(fr *Frame, st *State, i *ssa.IndexAddr) Val {
 		if _, ok := isStruct(et); ok {
 			return Val{T: resT, L: []*Term{x.elemRef(et, base.L[0], abs)}, Ptr: &PtrInfo{Kind: PObj, T: et}}
 		}
-		return Val{T: resT, L: []*Term{tb.UF("eaddr", tb.BV(64), base.L[0], abs)}, Ptr: &PtrInfo{Kind: PLoc, T: et, Loc: Loc{Class: elemClass(et), Idx: []*Term{base.L[0], abs}}}}
+		return x.regPtr(Val{T: resT, L: []*Term{tb.UF("eaddr", tb.BV(64), base.L[0], abs)}, Ptr: &PtrInfo{Kind: PLoc, T: et, Loc: Loc{Class: elemClass(et), Idx: []*Term{base.L[0], abs}}}})
 	case *types.Pointer:
 		arr := bt.Elem().Underlying().(*types.Array)
 		x.addObl(fr, st, "bounds", i, "", tb.And(tb.SLe(z, i64), tb.SLt(i64, tb.BVInt(arr.Len(), 64))))
@@ -1019,7 +1020,7 @@ func (x *Exec) indexAddr(fr *Frame, st *State, i *ssa.IndexAddr) Val {
 		if _, ok := isStruct(et); ok {
 			return Val{T: resT, L: []*Term{x.elemRef(et, id, i64)}, Ptr: &PtrInfo{Kind: PObj, T: et}}
 		}
-		return Val{T: resT, L: []*Term{tb.UF("eaddr", tb.BV(64), id, i64)}, Ptr: &PtrInfo{Kind: PLoc, T: et, Loc: Loc{Class: elemClass(et), Idx: []*Term{id, i64}}}}
+		return x.regPtr(Val{T: resT, L: []*Term{tb.UF("eaddr", tb.BV(64), id, i64)}, Ptr: &PtrInfo{Kind: PLoc, T: et, Loc: Loc{Class: elemClass(et), Idx: []*Term{id, i64}}}})
 	}
 	x.note("indexaddr on %s unsupported", base.T)
 	return Val{T: resT, L: []*Term{tb.Fresh("ia", tb.BV(64))}, Ptr: &PtrInfo{Kind: POpaque, T: resT.Underlying().(*types.Pointer).Elem()}}
